@@ -713,6 +713,7 @@ def pumped_suite(ctx, name, lines, res):
 def run(ctx, round_no=0):
     res = Res()
     p = ctx.prop; S = ctx.scale
+    if p == 'C15' and S > 12: S = 12      # every case is run five to seven times (four Queryable types, reordered members, model twice): 12x the quick volume keeps the thorough tier under an hour
     seed = ctx.seed + 1000 * round_no
     first = round_no == 0
     g = (lambda *a: []) if ctx.opts.get('corpus-only') else gen
